@@ -181,6 +181,26 @@ func (r scriptedLines) Render(_ sdf.SDF2, out sdf.Line2Writer) {
 }
 func (scriptedLines) Info(sdf.SDF2) string { return "scripted" }
 
+// scriptedLinesFlat writes total numbered segments in writes of per segments.
+type scriptedLinesFlat struct{ total, per int }
+
+func (r scriptedLinesFlat) Render(_ sdf.SDF2, out sdf.Line2Writer) {
+	for k := 0; k < r.total; k += r.per {
+		var ls []*sdf.Line2
+		for i := k; i < k+r.per && i < r.total; i++ {
+			ls = append(ls, &sdf.Line2{{X: float64(i % 40), Y: float64(i / 40)}, {X: float64(i%40) + 0.5, Y: float64(i/40) + 0.25}})
+		}
+		out.Write(ls)
+	}
+	out.Close()
+}
+func (scriptedLinesFlat) Info(sdf.SDF2) string { return "scripted" }
+
+type collect2 struct{ to *[]*sdf.Line2 }
+
+func (c collect2) Write(ls []*sdf.Line2) error { *c.to = append(*c.to, ls...); return nil }
+func (c collect2) Close() error                { return nil }
+
 type scriptedTris struct{ first, batches int }
 
 func (r scriptedTris) Render(_ sdf.SDF3, out sdf.Triangle3Writer) {
@@ -417,7 +437,81 @@ func prepare(sc scen, j *vlib.Job) *prepared {
 				}
 			}
 		}
-	case "dxf-two", "dxf-history", "3mf-two":
+	case "one-buffer-two-renders-3d", "one-buffer-two-renders-2d":
+		// one buffered writer handed to two renders in turn (Render ends with Close, a flush) into one sink:
+		// the delivered sequence must be the two renders' items in order under every schedule
+		want := []int{}
+		for k := 0; k < 3; k++ {
+			want = append(want, k)
+		}
+		for k := 0; k < 6; k++ {
+			want = append(want, 100+k)
+		}
+		p.indep = fmt.Sprint([]string{fmt.Sprint(want)})
+		if strings.HasSuffix(sc.Kind, "3d") {
+			p.body = func() {
+				var tris []*sdf.Triangle3
+				var wg vsync.WaitGroup
+				ch := sdf.WriteTriangles(&wg, &tris)
+				buf := sdf.NewTriangle3Buffer(ch)
+				scriptedTris{first: 0, batches: 2}.Render(dummy3{}, buf)
+				scriptedTris{first: 100, batches: 3}.Render(dummy3{}, buf)
+				ch.Close()
+				wg.Wait()
+				got := []int{}
+				for _, t := range tris {
+					got = append(got, int(t[0].X))
+				}
+				out = []string{fmt.Sprint(got)}
+			}
+		} else {
+			p.body = func() {
+				got := []int{}
+				var wg vsync.WaitGroup
+				ch := vsync.MakeChan[[]*sdf.Line2]()
+				wg.Add(1)
+				vsync.Go(func() {
+					defer wg.Done()
+					for {
+						ls, ok := ch.Recv2()
+						if !ok {
+							return
+						}
+						for _, l := range ls {
+							got = append(got, int(l[0].X))
+						}
+					}
+				})
+				buf := sdf.NewLine2Buffer(ch)
+				scriptedLines{first: 0, batches: 2}.Render(circle{1}, buf)
+				scriptedLines{first: 100, batches: 3}.Render(circle{1}, buf)
+				ch.Close()
+				wg.Wait()
+				out = []string{fmt.Sprint(got)}
+			}
+		}
+	case "svg-long":
+		// an SVG of many full batches: the bytes must not depend on how far the file writer lags behind
+		digest := func(path string) string {
+			d := vos.Files[path]
+			if d == nil {
+				return "no file"
+			}
+			return fmt.Sprintf("%d:%x", len(d.B), sha256.Sum256(d.B))
+		}
+		r := scriptedLinesFlat{total: 700, per: 50}
+		var all []*sdf.Line2
+		r.Render(circle{1}, collect2{&all})
+		vsync.RunOnce(nil, false, func() { vos.Reset(nil); render.SaveSVG("ref.svg", "fill:none;stroke:black;stroke-width:0.1", all) })
+		refd := digest("ref.svg")
+		p.body = func() {
+			vos.Reset(nil)
+			render.ToSVG(circle{1}, "a.svg", r)
+			out = []string{digest("a.svg")}
+		}
+		vsync.RunOnce(nil, false, p.body)
+		p.indep = fmt.Sprint([]string{refd})
+	case "dxf-two", "dxf-history", "3mf-two", "dxf-todxf-savedxf", "dxf-todxf-poly":
 		// file sinks that go to the real file system (their libraries take a path): two different renders
 		// concurrently, and A;B;A one after the other; every file must equal the one written by the same
 		// render executed alone (3MF: decoded content, as the property says; DXF: bytes)
@@ -427,7 +521,15 @@ func prepare(sc scen, j *vlib.Job) *prepared {
 		s3a, _ := sdf.Sphere3D(1)
 		one := func(which int, path string) {
 			// scripted renderers (few synchronisation operations): 3 + 2*which batches of numbered items
-			if ext == "dxf" {
+			if which == 1 && sc.Kind == "dxf-todxf-savedxf" {
+				render.SaveDXF(path, []*sdf.Line2{{{X: 0, Y: 0}, {X: 1, Y: 0}}, {{X: 1, Y: 0}, {X: 1, Y: 1}}, {{X: 1, Y: 1}, {X: 0, Y: 0}}})
+			} else if which == 1 && sc.Kind == "dxf-todxf-poly" {
+				pl := sdf.NewPolygon()
+				pl.Add(0, 0)
+				pl.Add(2, 0)
+				pl.Add(1, 3)
+				render.Poly(pl, path)
+			} else if ext == "dxf" {
 				render.ToDXF(circle{1}, path, scriptedLines{first: 100 * which, batches: 2 + which})
 			} else {
 				render.To3MF(s3a, path, scriptedTris{first: 100 * which, batches: 2 + which})
@@ -595,7 +697,9 @@ func main() {
 		scen{Kind: "octree-history", Workers: 1, Bound: -1}, scen{Kind: "reuse-octree", Workers: 1, Bound: -1}, scen{Kind: "reuse-uniform", Workers: 2, Bound: 1},
 		scen{Kind: "reuse-quadtree", Workers: 1, Bound: -1}, scen{Kind: "reuse-squares", Workers: 1, Bound: -1}, scen{Kind: "reuse-dc2d", Workers: 1, Bound: -1},
 		scen{Kind: "stl-two", Workers: 1, Bound: -1}, scen{Kind: "stl-path-history", Workers: 1, Bound: -1}, scen{Kind: "svg-path-history", Workers: 1, Bound: -1},
-		scen{Kind: "dxf-two", Workers: 1, Bound: -1}, scen{Kind: "dxf-history", Workers: 1, Bound: -1}, scen{Kind: "3mf-two", Workers: 1, Bound: -1})
+		scen{Kind: "dxf-two", Workers: 1, Bound: -1}, scen{Kind: "dxf-history", Workers: 1, Bound: -1}, scen{Kind: "3mf-two", Workers: 1, Bound: -1},
+		scen{Kind: "dxf-todxf-savedxf", Workers: 1, Bound: -1}, scen{Kind: "dxf-todxf-poly", Workers: 1, Bound: -1}, scen{Kind: "svg-long", Workers: 1, Bound: -1},
+		scen{Kind: "one-buffer-two-renders-3d", Workers: 1, Bound: -1}, scen{Kind: "one-buffer-two-renders-2d", Workers: 1, Bound: -1})
 	if c.Thorough() {
 		scens = append(scens, scen{Kind: "triangles", Lattice: "1x14x13 n=14 (layer 225: 3 batches)", Workers: 3, Every: 100, Bound: 2},
 			scen{Kind: "two", Lattice: T, Workers: 2, Every: 0, Bound: 2}, scen{Kind: "two", Lattice: L25, Workers: 1, Every: 0, Bound: 1}, scen{Kind: "stl", Lattice: L100, Workers: 3, Every: 37, Bound: 2})
